@@ -276,8 +276,8 @@ def n4_sign(ctx):
         ctx.finding('N4', 'minus/pushes', "format_number pushes '-' at %d sites, expected one" % len(minus), site=b.loc)
         return
     bid, t = minus[0]
-    conds = b.cond_text(bid)
-    if conds == ['($number Lt 0.0)!=[0]'] or conds == ['(number Lt 0.0)!=[0]']:
+    conds = [c.replace('$', '') for c in b.cond_text(bid)]
+    if conds in (['(number Lt 0.0)!=[0]'], ['(0.0 Gt number)!=[0]'], ['(number Ge 0.0)=[0]'], ['(0.0 Le number)=[0]']):
         ctx.ok('N4', "'-' is pushed iff number < 0.0", 'guard-dom', site=t['loc'])
     else:
         ctx.finding('N4', 'minus/guard', "the '-' is pushed under %s; expected exactly number < 0.0" % conds, site=t['loc'])
